@@ -564,6 +564,15 @@ class Unit:
                 return top & (M(a) >> b[1])
             if op in ("Shl", "ShlUnchecked") and b[0] == "const" and isinstance(b[1], int) and 0 <= b[1] < 128:
                 return top & (M(a) << b[1])
+            if op in ("Shl", "ShlUnchecked") and a[0] == "const" and a[1] == 1:
+                # 1 << trailing_zeros(x) with x != 0 is the lowest set bit of x: one of the bits x may have
+                t = b
+                while t[0] == "cast":
+                    t = t[2]
+                if t[0] == "call" and last_seg(t[1]) == "trailing_zeros" and len(t[2]) == 1:
+                    x = t[2][0]
+                    if 0 in st.ne.get(x, ()) or self.rng(x, st, 6)[0] > 0:
+                        return top & M(x)
             if op in ("Sub", "SubUnchecked"):
                 # x - y <= x for unsigned non-wrapping subtraction: no bit above the top bit of x
                 ma = M(a)
